@@ -51,13 +51,13 @@ TsOK(v, x) == v = x \/ (cfgv.ed /\ v <= x)
 NoSub == [mode |-> "", t |-> "", paths |-> {}, uo |-> FALSE, user |-> "", started |-> FALSE, ended |-> FALSE,
           code |-> "", expect |-> "", syncs |-> 0, nall |-> 0, view |-> {}, cand |-> {}, got |-> {},
           w0 |-> 0, clean0 |-> FALSE, tdel |-> FALSE, stalled |-> FALSE, timeouts |-> FALSE,
-          settled |-> FALSE, offers |-> <<>>, deliv |-> <<>>, dels |-> 0, auxkeys |-> {}, dupsum |-> 0]
+          settled |-> FALSE, offers |-> <<>>, deliv |-> <<>>, dels |-> 0, auxkeys |-> {}, dupsum |-> 0, regw |-> 0]
 
 (* counting functions over leaf keys                                        *)
 Inc(f, k, n) == [x \in DOMAIN f \cup {k} |-> (IF x \in DOMAIN f THEN f[x] ELSE 0) + (IF x = k THEN n ELSE 0)]
 
 TInit ==
-    /\ cfgv = [ed |-> TRUE, aclOn |-> FALSE, acl |-> {}, aclErr |-> {}, targets |-> {}, removed |-> {}, shortTimeout |-> FALSE]
+    /\ cfgv = [ed |-> TRUE, aclOn |-> FALSE, acl |-> {}, aclErr |-> {}, targets |-> {}, removed |-> {}, shortTimeout |-> FALSE, winv |-> <<>>]
     /\ present = {} /\ vers = {} /\ sub = <<>> /\ wcount = 0
     /\ stable = [valid |-> FALSE, w |-> 0, proj |-> {}]
     /\ l = 1 /\ TLCSet(1, 1)
@@ -66,7 +66,7 @@ TConfig ==
     /\ St("config")
     /\ cfgv' = [ed |-> Ev.ed, aclOn |-> Ev.acl_on, acl |-> {<<Ev.acl[i].u, Ev.acl[i].t>> : i \in 1..Len(Ev.acl)},
                 aclErr |-> SeqToSet(Ev.acl_err), targets |-> SeqToSet(Ev.targets), removed |-> {},
-                shortTimeout |-> Ev.timeout_ms < 1000]
+                shortTimeout |-> Ev.timeout_ms < 1000, winv |-> <<>>]
     /\ present' = {} /\ vers' = {} /\ sub' = <<>> /\ wcount' = 0
     /\ stable' = [valid |-> FALSE, w |-> 0, proj |-> {}]
 
@@ -88,7 +88,9 @@ TWinv ==
        /\ present' = {x \in present : ~MayDelete(e, x)}
        /\ sub' = [s \in DOMAIN sub |-> [sub[s] EXCEPT !.cand = {x \in @ : ~MayDelete(e, x)}]]
        /\ wcount' = wcount + 1
-       /\ cfgv' = IF e.op = "Remove" THEN [cfgv EXCEPT !.removed = @ \cup {e.t}] ELSE cfgv
+       \* winv[t]: the number of this writer call (the writer of a target has one call outstanding at most)
+       /\ cfgv' = [cfgv EXCEPT !.removed = IF e.op = "Remove" THEN @ \cup {e.t} ELSE @,
+                               !.winv = [t \in DOMAIN @ \cup {e.t} |-> IF t = e.t THEN wcount + 1 ELSE @[t]]]
     /\ UNCHANGED stable
 
 (* What the feed offered to a settled subscriber during this call (C06/C08): *)
@@ -108,9 +110,22 @@ AddOffers(s, t, fed, i) ==
 (* One notification of the change feed is offered to a client at most once,  *)
 (* however many of its paths agree with it (C06); counted by the driver at   *)
 (* the offer hook while the notification is handed to the server.            *)
+(* ... and it is offered to a settled subscriber if and only if it agrees    *)
+(* with one of the subscriber's paths on every element they both have (the   *)
+(* ACL plays no part at offer time).                                         *)
+OfferExpected(s, t, f) ==
+    /\ TargetOK(s, t)
+    /\ \E q \in s.paths : IF f.k = "upd" THEN \E i \in 1..Len(f.kids) : Agree(q, f.kids[i]) ELSE Agree(q, f.p)
+(* judged from the moment the registration of the stream has returned: for   *)
+(* writer calls that began after it (regw: the number of writer calls begun  *)
+(* when the driver's hook behind the registration fired; 0 = not registered) *)
+OfferJudged(s, t) == /\ s.regw > 0 /\ ~s.ended /\ ~s.stalled /\ ~s.timeouts /\ s.mode = "stream"
+                     /\ t \in DOMAIN cfgv.winv /\ cfgv.winv[t] > s.regw
 TWret ==
     /\ St("wret")
     /\ (\A i \in 1..Len(Ev.fed) : Ev.fed[i].maxoff <= 1) = TRUE
+    /\ (\A i \in 1..Len(Ev.fed) : \A n \in DOMAIN sub :
+            OfferJudged(sub[n], Ev.t) => ((n \in SeqToSet(Ev.fed[i].to)) <=> OfferExpected(sub[n], Ev.t, Ev.fed[i]))) = TRUE
     /\ present' = present \cup {[t |-> Ev.t, p |-> Ev.fed[i].p] : i \in {j \in 1..Len(Ev.fed) : Ev.fed[j].k = "upd" /\ ~Ev.fed[j].aux}}
     /\ sub' = [n \in DOMAIN sub |-> IF sub[n].settled /\ ~sub[n].ended THEN AddOffers(sub[n], Ev.t, Ev.fed, 1) ELSE sub[n]]
     /\ UNCHANGED <<cfgv, vers, wcount, stable>>
@@ -135,6 +150,12 @@ TSubStart ==
                                !.user = e.user, !.started = TRUE, !.expect = Expect(e)]
            s1 == StartWalk(s0) IN
        sub' = [n \in DOMAIN sub \cup {e.s} |-> IF n = e.s THEN s1 ELSE sub[n]]
+    /\ UNCHANGED <<cfgv, present, vers, wcount, stable>>
+
+(* driver marker: addSubscription has returned for this stream              *)
+TRegistered ==
+    /\ St("registered")
+    /\ sub' = [sub EXCEPT ![Ev.s].regw = wcount + 1]
     /\ UNCHANGED <<cfgv, present, vers, wcount, stable>>
 
 TTrigger ==
@@ -343,7 +364,7 @@ TEnd ==
     /\ (\A n \in DOMAIN sub : sub[n].started => sub[n].ended) = TRUE
     /\ UNCHANGED <<cfgv, present, vers, sub, wcount, stable>>
 
-TNext == \/ TConfig \/ TWinv \/ TWret \/ TSubStart \/ TTrigger \/ TSendUpd \/ TSendDel \/ TSendSync \/ TSendAfterEnd
+TNext == \/ TConfig \/ TWinv \/ TWret \/ TSubStart \/ TRegistered \/ TTrigger \/ TSendUpd \/ TSendDel \/ TSendSync \/ TSendAfterEnd
          \/ TSubEnd \/ TQuiesce \/ TBacklog \/ TStall \/ TResume \/ TClientEnd \/ TEnd
 TSpec == TInit /\ [][TNext]_tvars
 
